@@ -71,6 +71,9 @@ def go_elem_type(case, t, i):
     if t == 1:
         return "Token"
     # "uniform": every rule returns the same Go type, so that neighbouring stack entries have identical types
+    # "valtypes": results are struct values whose Discard() has a pointer receiver (the method set of the value type is empty)
+    if case.get("valtypes"):
+        return "N_" + case["rules"][i]["name"]
     return "*N_u" if case.get("uniform") else "*N_" + case["rules"][i]["name"]
 
 
@@ -119,6 +122,12 @@ def render_go(case, pkg):
         rn = "u" if case.get("uniform") else case["rules"][m["rule"]]["name"]
         params = ", ".join("a%d %s" % (i, t) for i, t in enumerate(m["params"]))
         args = "".join(", val(a%d)" % i for i in range(len(m["params"])))
+        if case.get("valtypes"):
+            o += ["func (p *Parser) %s(%s) N_%s {" % (m["name"], params, rn),
+                  "\tn := N_%s{}" % rn,
+                  "\tp.rec.Act(%d, &n.Node%s)" % (m["id"], args),
+                  "\treturn n", "}", ""]
+            continue
         o += ["func (p *Parser) %s(%s) *N_%s {" % (m["name"], params, rn),
               "\tn := &N_%s{}" % rn,
               "\tp.rec.Act(%d, &n.Node%s)" % (m["id"], args),
@@ -133,6 +142,11 @@ def render_go(case, pkg):
         o += ["\tcase L_Token:", "\t\treturn val([]Token(v))"]
         for n in rnames:
             o += ["\tcase L_N_%s:" % n, "\t\treturn val([]*N_%s(v))" % n]
+    for n in (rnames if case.get("valtypes") else []):
+        o += ["\tcase N_%s:" % n, "\t\treturn hk.NodeValV(v.Node)",
+              "\tcase []N_%s:" % n, "\t\tvs := make([]hk.Val, 0, len(v))",
+              "\t\tfor _, e := range v {", "\t\t\tvs = append(vs, val(e))", "\t\t}",
+              "\t\treturn hk.ListVal(vs)"]
     for n in rnames:
         o += ["\tcase *N_%s:" % n, "\t\tif v == nil {", "\t\t\treturn hk.NodeVal(nil)", "\t\t}",
               "\t\treturn hk.NodeVal(&v.Node)",
